@@ -5,7 +5,12 @@ WT=$1; M=$2; FEAT=$3
 cd $WT || exit 9
 git checkout -q -- . ; rm -rf cglue/tests
 FE=""; [ -n "$FEAT" ] && FE="--features $FEAT"
-rundemo() { mkdir -p cglue/tests; cp $M/demo.rs cglue/tests/vdemo.rs; RUST_BACKTRACE=0 cargo test -p cglue --test vdemo --offline $FE >/tmp/demo.out 2>&1; rc=$?; rm -rf cglue/tests; return $rc; }
+# a demo with a main() and no #[test] is an example program; DEMO_FLAGS (e.g. --release) are passed to cargo
+rundemo() {
+  if grep -q "fn main()" $M/demo.rs && ! grep -q "#\[test\]" $M/demo.rs; then
+    mkdir -p cglue/examples; cp $M/demo.rs cglue/examples/vdemo.rs; RUST_BACKTRACE=0 cargo run -p cglue --example vdemo --offline $FE $DEMO_FLAGS >/tmp/demo.out 2>&1; rc=$?; rm -f cglue/examples/vdemo.rs; git checkout -q -- cglue/examples 2>/dev/null; return $rc
+  fi
+  mkdir -p cglue/tests; cp $M/demo.rs cglue/tests/vdemo.rs; RUST_BACKTRACE=0 cargo test -p cglue --test vdemo --offline $FE $DEMO_FLAGS >/tmp/demo.out 2>&1; rc=$?; rm -rf cglue/tests; return $rc; }
 rundemo; c=$?
 git apply $M/patch.diff || { echo "patch does not apply"; exit 8; }
 cargo test --workspace --no-fail-fast --offline >/tmp/suite.out 2>&1; a=$?
